@@ -47,6 +47,8 @@ pub enum Ev {
         rp_id: String,
         rp_entity: String,
         user_entity: Vec<u8>,
+        /// the display strings of the two entity arguments: RP name, user name, user display name
+        names: (Option<String>, Option<String>, Option<String>),
         user_handle: Option<Vec<u8>>,
         counter: Option<u32>,
         rk: bool,
@@ -100,7 +102,8 @@ impl Ev {
                 "ids": ids.as_ref().map(|v| v.iter().map(|i| hex_short(i)).collect::<Vec<_>>()),
                 "rp": rp,
                 "result": match result { Ok(v) => json!(v.iter().map(|i| hex_short(i)).collect::<Vec<_>>()), Err(e) => json!({"err": e}) }}}),
-            Ev::Save { id, rp_id, rk, up, uv, counter, user_handle, has_hmac, result, .. } => json!({"save": {
+            Ev::Save { id, rp_id, rp_entity, user_entity, names, rk, up, uv, counter, user_handle, has_hmac, result } => json!({"save": {
+                "rp_argument": rp_entity, "user_argument": hex_short(user_entity), "names": [names.0.as_ref().map(|s| s.chars().take(40).collect::<String>()), names.1.as_ref().map(|s| s.chars().take(40).collect::<String>()), names.2.as_ref().map(|s| s.chars().take(40).collect::<String>())],
                 "id": hex_short(id), "rp_id": rp_id, "rk": rk, "up": up, "uv": uv, "counter": counter,
                 "user_handle": user_handle.as_ref().map(|h| hex_short(h)), "hmac": has_hmac,
                 "result": match result { Ok(()) => json!("ok"), Err(e) => json!({"err": e}) }}}),
@@ -420,6 +423,7 @@ impl CredentialStore for RecStore {
             rp_id: cred.rp_id.clone(),
             rp_entity: rp.id.clone(),
             user_entity: user.id.to_vec(),
+            names: (rp.name.clone(), user.name.clone(), user.display_name.clone()),
             user_handle: cred.user_handle.as_ref().map(|b| b.to_vec()),
             counter: cred.counter,
             rk: options.rk,
